@@ -237,6 +237,56 @@ func VerifC07_CancelledNeverStarts() {
 	rt.Reach("cancel-end")
 }
 
+// cancelled while executing with a pending entry (re-queued from outside, or
+// re-scheduled by its own function): the pending entry never starts it again
+func VerifC07_CancelledWhileRunning() {
+	rt.SchedYieldOnly(true)
+	m := c07Reset()
+	u := rt.Unit()
+	runs := 0
+	gate := make(chan struct{})
+	how := rt.Choice("pending", 5)
+	var t *Task
+	t = m.NewTask("t", func(context.Context, *Task) error {
+		runs++
+		if runs == 1 {
+			if how == 4 {
+				t.Schedule(time.Now().Add(2 * u)) // next execution set by the task itself
+			}
+			<-gate
+		}
+		return nil
+	}).MaxDelay(3 * u)
+	other := m.NewTask("other", func(context.Context, *Task) error { return nil }).MaxDelay(3 * u)
+	go func() {
+		for {
+			taskTimeslot <- struct{}{}
+		}
+	}()
+	go taskQueueHandler()
+	go taskScheduleHandler()
+	t.Queue()
+	time.Sleep(u / 2) // the task is inside its function
+	rt.Assert(runs == 1, "cancelrunning/first-run-started")
+	switch how {
+	case 0:
+		t.Queue()
+	case 1:
+		other.Queue()
+		t.Queue()
+	case 2:
+		t.QueuePrioritized()
+	case 3:
+		t.Schedule(time.Now().Add(2 * u))
+	}
+	t.Cancel()
+	time.Sleep(u / 2)
+	close(gate) // the cancelled run returns
+	time.Sleep(6 * u)
+	rt.Assert(runs == 1, "cancelrunning/cancelled-task-not-started-again")
+	rt.Reach("cancelrunning-end")
+}
+
 // ---- O4: a scheduled task does not start early, and does start ----
 
 func VerifC07_NotEarly() {
